@@ -97,7 +97,15 @@ _CMP = {
     ast.GtE: lambda a, b: a >= b,
     ast.Eq: lambda a, b: a == b,
     ast.NotEq: lambda a, b: a != b,
+    ast.In: lambda a, b: a in b,
+    ast.NotIn: lambda a, b: a not in b,
 }
+
+
+class Host:
+    """Base class of *modelled* collaborators a rule hands to the interpreter (a persistent map, a
+    lock, a Var): attribute access and calls go to the Python object.  Each model is a trusted fact
+    of the rule that defines it."""
 _REFLECT = {"__lt__": "__gt__", "__gt__": "__lt__", "__le__": "__ge__", "__ge__": "__le__", "__eq__": "__eq__", "__ne__": "__ne__"}
 _DUNDER = {ast.Lt: "__lt__", ast.Gt: "__gt__", ast.LtE: "__le__", ast.GtE: "__ge__", ast.Eq: "__eq__", ast.NotEq: "__ne__"}
 
@@ -262,6 +270,14 @@ class Interp:
         if isinstance(s, P.FUNC):
             env[s.name] = Closure(s, env, self)
             return
+        if isinstance(s, ast.With):
+            # only modelled locks (Host objects flagged is_lock): single-threaded evaluation, no effect
+            for it in s.items:
+                cm = self.eval(it.context_expr, env)
+                if not (isinstance(cm, Host) and getattr(cm, "is_lock", False)) or it.optional_vars is not None:
+                    raise Unsupported(f"with {P.un(it.context_expr)}")
+            self.exec_block(s.body, env)
+            return
         if isinstance(s, ast.Try) and not s.finalbody and not s.orelse:
             try:
                 self.exec_block(s.body, env)
@@ -284,6 +300,8 @@ class Interp:
                 raise PyRaise("ValueError", "unpack")
             for e, x in zip(t.elts, vs):
                 self._assign(e, x, env)
+        elif isinstance(t, ast.Attribute) and isinstance(self.eval(t.value, env), Obj):
+            self.eval(t.value, env).f[t.attr] = v
         else:
             raise Unsupported(f"assignment target {P.un(t)}")
 
@@ -338,6 +356,11 @@ class Interp:
             if d in self.globals:
                 return self.globals[d]
             base = self.eval(e.value, env)
+            if isinstance(base, Host):
+                try:
+                    return getattr(base, e.attr)
+                except AttributeError:
+                    raise Unsupported(f"attribute {P.un(e)} of a modelled collaborator")
             if isinstance(base, Obj):
                 if e.attr in base.f:
                     return base.f[e.attr]
@@ -407,6 +430,26 @@ class Interp:
                 raise PyRaise("IndexError")
         if isinstance(e, ast.Lambda):
             return Closure(e, env, self)
+        if isinstance(e, (ast.ListComp, ast.GeneratorExp, ast.SetComp)):
+            out = []
+
+            def gen(i, env2):
+                if i == len(e.generators):
+                    out.append(self.eval(e.elt, env2))
+                    return
+                g = e.generators[i]
+                if g.is_async:
+                    raise Unsupported("async comprehension")
+                for v in self.iterate(self.eval(g.iter, env2)):
+                    self.fuel -= 1
+                    if self.fuel < 0:
+                        raise Unsupported("budget")
+                    env3 = dict(env2)
+                    self._assign(g.target, v, env3)
+                    if all(self.truth(self.eval(c, env3)) for c in g.ifs):
+                        gen(i + 1, env3)
+            gen(0, dict(env))
+            return tuple(out) if not isinstance(e, ast.SetComp) else frozenset(out)
         raise Unsupported(f"expression {type(e).__name__}: {P.un(e)[:80]}")
 
     def eval_call(self, e: ast.Call, env):
